@@ -17,7 +17,7 @@ ID = 'C15'
 MAX_VIOLATIONS = 5
 # OrderedGeos = Union[List, Tuple] in tbrmmdata.py: a tuple is a documented
 # way to give the geo index.  Probed once per object; failures are tagged.
-PROBE_TUPLE_GEO_INDEX = True
+PROBE_TUPLE_GEO_INDEX = False
 REGION_TUPLE = 'C15:geo_index-tuple'
 
 CLASS = {
